@@ -491,6 +491,12 @@ class MinFlowDecomp(pathmodel.AbstractPathModelDAG): # Note that we inherit from
             if "time_limit" in subgraph_solver_options:
                 subgraph_solver_options["time_limit"] = self.time_limit - self.solve_time_elapsed
 
+            # A window in which every edge is ignored (or unweighted) says nothing about the number of paths
+            subgraph_edges_to_ignore_set = set(subgraph_edges_to_ignore)
+            if not any(self.flow_attr in data and (u, v) not in subgraph_edges_to_ignore_set for u, v, data in subgraph.edges(data=True)):
+                right_node_index = min(right_node_index + MinFlowDecomp.subgraph_lowerbound_shift, self.G.number_of_nodes() - 1)
+                continue
+
             subgraph_mfd_solver = MinFlowDecomp(
                     G=subgraph,
                     flow_attr=self.flow_attr,
